@@ -176,6 +176,7 @@ static PLocHandle   FirstLocHandle;
 static PSymbolStack FirstStack;
 static PCToken      MomSection;
 static char*        LastGlobSymbol;
+static LongInt      TmpSymCounter; /* number of non-temporary symbols defined so far */
 static PFunction    FirstFunction; /* Liste definierter Funktionen */
 
 void AsmParsInit(void) {
@@ -533,6 +534,7 @@ void InitTmpSymbols(void) {
     *TmpSymCounterVal              = '\0';
     TmpSymLogDepth                 = 0;
     *LastGlobSymbol                = '\0';
+    TmpSymCounter                  = 0;
 }
 
 static void AddTmpSymLog(Boolean Back, LongInt Counter) {
@@ -574,6 +576,7 @@ static Boolean ChkTmp1(char* Name) {
 
             SHA1Init(&sha);
             SHA1Update(&sha, (unsigned char*)LastGlobSymbol, strlen(LastGlobSymbol));
+            SHA1Update(&sha, (unsigned char*)&TmpSymCounter, sizeof(TmpSymCounter));
             SHA1Final(results, &sha);
             SHA1ToHexString(results, TmpSymCounterVal);
         }
@@ -680,6 +683,7 @@ static Boolean ChkTmp3(char* Name, as_symbol_source_t symbol_source) {
 
     if (symbol_source != e_symbol_source_none) {
         strmaxcpy(LastGlobSymbol, Name, STRINGSIZE);
+        TmpSymCounter++;
         *TmpSymCounterVal = '\0';
     }
     return False;
